@@ -128,10 +128,10 @@ theorem lateC_ok (ds : Option Ds64) (hds : ∀ d, ds = some d → d.table = []) 
     · simp at h
 
 theorem bodyC_ok (ds : Option Ds64) (hds : ∀ d, ds = some d → d.table = []) {fmt : Fmt}
-    {c0 cF : Option (List ChnaEntry)} {a0 b0 aF bF : Option Bytes} {sz : Nat} {data : Bytes}
+    {c0 cF : Option (List ChnaEntry)} {a0 b0 aF bF : Option Bytes} {sz : Nat} {data dp : Bytes}
     (hc0 : ChnaOK c0) (hcF : ChnaOK cF) (ha0 : BytesOK a0) (haF : BytesOK aF) (hb0 : BytesOK b0) (hbF : BytesOK bF)
-    (hd : (dataC sz data).OK ds) :
-    ∀ x ∈ bodyC fmt c0 a0 b0 sz data cF aF bF, x.OK ds := by
+    (hd : (dataC sz data dp).OK ds) :
+    ∀ x ∈ bodyC fmt c0 a0 b0 sz data dp cF aF bF, x.OK ds := by
   intro x hx
   simp only [bodyC, List.mem_cons, List.mem_append] at hx
   rcases hx with rfl | h | rfl | h
@@ -144,7 +144,7 @@ theorem length_le_encAll (cs : List Chunk) (h : ∀ c ∈ cs, c.id.length = 4) :
   induction cs with
   | nil => simp
   | cons c cs ih =>
-    have := c.enc_length (h c (by simp))
+    have : c.enc.length ≥ 8 := by simp [Chunk.enc, le_length, h c (by simp)]; omega
     have := ih (fun x hx => h x (by simp [hx]))
     simp only [encAll_cons, List.length_cons, List.length_append]; omega
 
@@ -206,22 +206,23 @@ theorem C09_roundtrip (fmt : Fmt) (c0 : Option (List ChnaEntry)) (a0 b0 : Option
     have hds : ∀ d, (some (⟨R, (dataOf ops).length, []⟩ : Ds64)) = some d → d.table = [] := by
       intro d hd; cases hd; rfl
     have hf : f = (idBW64 ++ (ffff ++ (idWAVE ++ ds64Chunk R (dataOf ops).length))) ++
-        encAll ([] ++ bodyC fmt c0 a0 b0 4294967295 (dataOf ops) (pendChna c0 ops) (pendAxml a0 ops) (pendBext b0 ops)) := by
+        encAll ([] ++ bodyC fmt c0 a0 b0 4294967295 (dataOf ops) (pad (dataOf ops).length) (pendChna c0 ops) (pendAxml a0 ops) (pendBext b0 ops)) := by
       rw [← hfile, hpre, hlate, fmtChunk_eq]
       have hffff : le 4 4294967295 = ffff := by decide
       simp [bodyC, dataC, Chunk.enc, hffff]
     have hhead := readHead_bw64 (f := f) (rest := _) hfile.symm hRlt (by omega)
-    have hdOK : (dataC 4294967295 (dataOf ops)).OK (some ⟨R, (dataOf ops).length, []⟩) :=
+    have hdOK : (dataC 4294967295 (dataOf ops) (pad (dataOf ops).length)).OK (some ⟨R, (dataOf ops).length, []⟩) :=
       ⟨by simp only [dataC]; decide, by simp only [dataC]; decide, by simp only [dataC]; omega,
-        by simp [effSize, dataC]⟩
-    have hok : ∀ c ∈ ([] ++ bodyC fmt c0 a0 b0 4294967295 (dataOf ops) (pendChna c0 ops) (pendAxml a0 ops)
+        by simp [effSize, dataC], by simp [dataC, pad_length]⟩
+    have hok : ∀ c ∈ ([] ++ bodyC fmt c0 a0 b0 4294967295 (dataOf ops) (pad (dataOf ops).length) (pendChna c0 ops) (pendAxml a0 ops)
         (pendBext b0 ops)), c.OK (some ⟨R, (dataOf ops).length, []⟩) := by
       simpa using bodyC_ok _ hds hc0 hcF ha0 haF hb0 hbF hdOK
     have hw := walk_chunks _ _ hok _ f (f.length + 1) [] [] hf (fuel_ok hf (fun c hc => (hok c hc).idLen))
     have hpl48 : (idBW64 ++ (ffff ++ (idWAVE ++ ds64Chunk R (dataOf ops).length))).length = 48 := by
       simp [idBW64, ffff, idWAVE, ds64Chunk, idDs64, le_length]
     rw [hpl48] at hw
-    have hfin := finishRead_written (ff := idBW64) (ds := some ⟨R, (dataOf ops).length, []⟩) hfmt hc0 hcF hf
+    have hfin := finishRead_written (ff := idBW64) (ds := some ⟨R, (dataOf ops).length, []⟩) (tail := []) hfmt hc0 hcF
+      (hf.trans (by simp))
       (by simp) (by intro d hd; cases hd; rfl) hframes
     rw [hpl48] at hfin
     simp only [readFile, hhead, hw, hfin]
@@ -239,15 +240,15 @@ theorem C09_roundtrip (fmt : Fmt) (c0 : Option (List ChnaEntry)) (a0 b0 : Option
         lateB c0.isSome (truthy a0) (truthy b0) (pendChna c0 ops) (pendAxml a0 ops) (pendBext b0 ops)))))))))) = f
     have hds : ∀ d, (none : Option Ds64) = some d → d.table = [] := by intro d hd; cases hd
     have hf : f = (idRIFF ++ (le 4 R ++ idWAVE)) ++
-        encAll ([junkC] ++ bodyC fmt c0 a0 b0 (dataOf ops).length (dataOf ops) (pendChna c0 ops) (pendAxml a0 ops)
+        encAll ([junkC] ++ bodyC fmt c0 a0 b0 (dataOf ops).length (dataOf ops) (pad (dataOf ops).length) (pendChna c0 ops) (pendAxml a0 ops)
           (pendBext b0 ops)) := by
       rw [← hfile, hpre, hlate, fmtChunk_eq, junkChunk_eq]
       simp [bodyC, dataC, Chunk.enc]
     have hhead := readHead_riff (f := f) (s4 := le 4 R) (rest := _) hfile.symm (le_length 4 R)
-    have hdOK : (dataC (dataOf ops).length (dataOf ops)).OK none :=
+    have hdOK : (dataC (dataOf ops).length (dataOf ops) (pad (dataOf ops).length)).OK none :=
       ⟨by simp only [dataC]; decide, by simp only [dataC]; decide, by simp only [dataC]; omega,
-        by simp [effSize, dataC]⟩
-    have hok : ∀ c ∈ ([junkC] ++ bodyC fmt c0 a0 b0 (dataOf ops).length (dataOf ops) (pendChna c0 ops)
+        by simp [effSize, dataC], by simp [dataC, pad_length]⟩
+    have hok : ∀ c ∈ ([junkC] ++ bodyC fmt c0 a0 b0 (dataOf ops).length (dataOf ops) (pad (dataOf ops).length) (pendChna c0 ops)
         (pendAxml a0 ops) (pendBext b0 ops)), c.OK none := by
       intro c hc
       rcases List.mem_append.1 hc with h | h
@@ -256,7 +257,7 @@ theorem C09_roundtrip (fmt : Fmt) (c0 : Option (List ChnaEntry)) (a0 b0 : Option
     have hw := walk_chunks _ _ hok _ f (f.length + 1) [] [] hf (fuel_ok hf (fun c hc => (hok c hc).idLen))
     have hpl12 : (idRIFF ++ (le 4 R ++ idWAVE)).length = 12 := by simp [idRIFF, idWAVE, le_length]
     rw [hpl12] at hw
-    have hfin := finishRead_written (ff := idRIFF) (ds := none) hfmt hc0 hcF hf
+    have hfin := finishRead_written (ff := idRIFF) (ds := none) (tail := []) hfmt hc0 hcF (hf.trans (by simp))
       (by intro x hx; rw [List.mem_singleton.1 hx]; rfl) (by intro d hd; cases hd) hframes
     rw [hpl12] at hfin
     simp only [readFile, hhead, hw, hfin]
